@@ -294,6 +294,24 @@ class Calls(object):
         (a,) = self._args(ev, node, st)
         return SV(self.fx.lib.key()["front"](ev.coerce_key(a, TKey()).e), TKey())
 
+    def spec_tokat(self, ev, node, st):
+        k, i = self._args(ev, node, st)
+        return SV(self.fx.lib.key()["ktok"](ev.coerce_key(k, TKey()).e, i.e), TStr())
+
+    def spec_kprefix(self, ev, node, st):
+        k, i = self._args(ev, node, st)
+        return SV(self.fx.lib.key()["kprefix"](ev.coerce_key(k, TKey()).e, i.e), TKey())
+
+    def spec_dictpos(self, ev, node, st):
+        """dictpos(d, key): position of key in the iteration order d.items() / d.values() (dict_iter axioms)"""
+        d, k = self._args(ev, node, st)
+        if isinstance(d.t, TOpt):
+            d = SV(d.t.get(self.cx, d.e), d.t.inner)
+        t = d.t
+        nm = t.name.replace("[", "_").replace("]", "_").replace(",", "_")
+        pos = self.cx.func("dict_pos_%s" % nm, t.sort(self.cx), t.k.sort(self.cx), I)
+        return SV(pos(d.e, ev.coerce_key(k, t.k).e), TInt())
+
     def spec_b2i(self, ev, node, st):
         (a,) = self._args(ev, node, st)
         return SV(z3.If(ev.truthy(a), 1, 0), TInt())
